@@ -578,7 +578,13 @@ class Evaluator:
         src = None
         conds = []
         for g in n.generators:
-            it = self.ev(g.iter, s2, mod)
+            gi = g.iter
+            if isinstance(gi, ast.Name) and s2.lookup(gi.id) is None and len(n.generators) == 1:
+                # a same-module constant table bound once (TABLE = (f1, f2, ..)): as if written in place
+                bl = mod.top.get(gi.id)
+                if bl and len(bl) == 1 and bl[-1][0] == "assign" and isinstance(bl[-1][1], ast.Tuple) and 1 <= len(bl[-1][1].elts) <= 8 and not any(isinstance(e, ast.Starred) for e in bl[-1][1].elts):
+                    gi = bl[-1][1]
+            it = self.ev(gi, s2, mod)
             if src is None:
                 src = it
             self.bind_target(g.target, T("iterelem", g.iter, mod, src=it), s2, mod)
@@ -588,7 +594,14 @@ class Evaluator:
             e = T("tuple", n, mod, elts=[self.ev(x, s2, mod) for x in elt])
         else:
             e = self.ev(elt, s2, mod)
-        return T("comp", n, mod, elt=e, src=src, conds=conds, kind=type(n).__name__)
+        c = T("comp", n, mod, elt=e, src=src, conds=conds, kind=type(n).__name__)
+        if len(n.generators) == 1 and src.op in ("tuple", "list"):
+            from .tutil import unroll_comp
+
+            un = unroll_comp(c)
+            if un is not None:
+                return un
+        return c
 
     def e_ListComp(self, n, sc, mod):
         return self._comp(n, n.elt, sc, mod)
